@@ -166,8 +166,16 @@ def build(case, seed):
     keys = None if case["system"] else ["11", "22", "33", "12", "13", "23", "44", "55", "66", "15", "46"]
     settings = {"qha": {"settings": {"NT": 4, "DT": 300, "DT_SAMPLE": 300, "NTV": 10, "DELTA_P": 1.5, "DELTA_P_SAMPLE": 1.5}},
                 "elast": {"settings": {"mode_gamma": {"interpolator": case["interp"], "order": case["order"]}}}}
-    return synth.make_dataset(rng, nv=case["nv"], nq=case["nq"], na=case["na"], system=case["system"], keys=keys,
-                              lattice=case["lattice"], law=case["law"], settings=settings, lattice_curvature=bool(case.get("lattice_curvature")))
+    ds = synth.make_dataset(rng, nv=case["nv"], nq=case["nq"], na=case["na"], system=case["system"], keys=keys,
+                            lattice=case["lattice"], law=case["law"], settings=settings, lattice_curvature=bool(case.get("lattice_curvature")))
+    # accidental coincidences: neighbouring modes of a q-point that have EXACTLY the same frequency at the first listed volume only
+    # (branches that cross there) — they are different modes with different volume dependence, in whatever order they are listed
+    np_ = ds.freqs.shape[2]
+    for q in range(ds.nq):
+        m = 3 + (q % max(1, np_ - 4)) if np_ >= 5 else None
+        if m is not None and m + 1 < np_:
+            ds.freqs[0, q, m + 1] = ds.freqs[0, q, m]
+    return ds
 
 
 def evaluate(case, seed, which=None):
